@@ -97,6 +97,10 @@ def run_chunk(modname, verif_seed, tier, indices, max_viol=6):
                 if d:
                     agg["digests"].add(d[:16])
                 sg = st.get("sig")
+                if not scn.get("tapes") and not st.get("faults", {}).get("preemption"):
+                    # the schedule is explicit in the scenario (op/exit/signal order), not
+                    # drawn from tapes: the scenario itself identifies the interleaving
+                    sg = "scn:" + scen_hash(scn)[:16]
                 if sg:
                     agg["sigs"].add(sg)
                 if res.get("nontrivial"):
@@ -428,6 +432,10 @@ def run_check(mod, tier, verif_seed, count=None, jobs=None):
             "probes": dict(sorted(total["probes"].items())),
             "distinct_digests": len(total["digests"]),
             "distinct_schedule_signatures": len(total["sigs"]),
+            "schedule_signature_measure": "sha256 over the sequence of non-default tape decisions "
+                                          "(tape name, position, value) of a run; for runs whose "
+                                          "schedule is explicit in the scenario instead of tapes, "
+                                          "the scenario hash",
             "components": getattr(mod, "COMPONENTS", {}),
             "known_findings": sorted({k["key"] for k, _ in known_hits}),
             "runs_with_violation": total["nviol"],
